@@ -2,8 +2,9 @@ SPECIFICATION DSpec
 CONSTANTS
   W = 8
   Fixed = TRUE
-  MaxN = 2
-  MaxU = 26
-  AllL = TRUE
+  FixedPred = TRUE
+  MaxN = 3
+  MaxU = 24
+  AllL = FALSE
 INVARIANTS Encoded Queried
 CHECK_DEADLOCK FALSE
